@@ -30,7 +30,7 @@ def strategy(tier):
 
     def mk(t):
         (x0, y0, w, h, ny, nx, dt, wdt, fill, copy, usemask,
-         wvals, dvals, mvals) = t
+         wvals, dvals, mvals, order) = t
         if dt in ('int64', 'int16') and fill not in ('nan', 'inf', '-inf'):
             fill = float(int(fill))
         n = max(1, w * h)
@@ -40,7 +40,7 @@ def strategy(tier):
         data = [dvals[i % len(dvals)] for i in range(ny * nx)]
         return {'box': [x0, x0 + w, y0, y0 + h], 'shape': [ny, nx],
                 'dtype': dt, 'wdtype': wdt, 'fill': fill, 'copy': copy,
-                'weights': weights, 'data': data,
+                'weights': weights, 'data': data, 'order': order,
                 'mask': ([bool(mvals[i % len(mvals)]) for i in range(ny * nx)]
                          if usemask else None)}
 
@@ -58,7 +58,8 @@ def strategy(tier):
         st.booleans(), st.booleans(),
         st.lists(wv, min_size=3, max_size=24),
         st.lists(dv, min_size=3, max_size=24),
-        st.lists(st.booleans(), min_size=2, max_size=11)).map(mk)
+        st.lists(st.booleans(), min_size=2, max_size=11),
+        st.sampled_from(['C', 'C', 'F', 'strided'])).map(mk)
 
 
 def _f(v):
@@ -83,6 +84,14 @@ def build(spec):
         data = np.array(vals, dtype=float).reshape(ny, nx) * u.Jy
     else:
         data = np.array(vals, dtype=dt).reshape(ny, nx)
+    order = spec.get('order', 'C')
+    if order == 'F':
+        data = np.asfortranarray(data.value) * data.unit if dt == 'quantity' \
+            else np.asfortranarray(data)
+        weights = np.asfortranarray(weights)
+    elif order == 'strided' and dt != 'quantity':
+        big = np.repeat(np.repeat(data, 2, axis=0), 2, axis=1)
+        data = big[::2, ::2]
     mask = RegionMask(weights, RegionBoundingBox(x0, x1, y0, y1))
     dmask = (None if spec['mask'] is None
              else np.array(spec['mask'], dtype=bool).reshape(ny, nx))
